@@ -2,10 +2,13 @@
 ID = 'C01'
 LEVEL = 'exploration'
 LEVEL_TEXT = ('exploration (bounded): the run-time contract "returns the DOM class, raises nothing, cssText serialises, that text parses and serialises again, all within a time bound" '
-              'is evaluated on the real parseString / parseStyle / CSSParser.parseString for every input of five enumerated domains; no statement is made about inputs outside them')
+              'is evaluated on the real parseString / parseStyle / CSSParser.parseString for every input of nine enumerated domains; no statement is made about inputs outside them')
 LEVEL_NOTE = ('bound: all concatenations of <= 3 (quick) / <= 4 (thorough) snippets of a 56-snippet token alphabet as sheet and as style attribute (the other three parseComments x validate '
               'settings one snippet shorter); truncations of sheets/*.css at token starts in windows of <= 2000 characters (quick: a stride); ( [ { and function nesting to depth 100 '
-              'and width sweeps to 400 with a doubling time check; constructed byte inputs (BOM / @charset / override, 12 encodings); a fixed list of fetchers and @import graphs. '
+              'and width sweeps to 1600 with a doubling time check, runs of up to 8192 characters or escapes inside single tokens (strings, url(, comments - closed and cut off -, identifiers, numbers) '
+              'with a per-input CPU budget; constructed byte inputs (BOM / @charset / override, 12 encodings); a fixed list of fetchers and @import graphs; 83 sub-parser positions x short '
+              'token sequences of a 167-snippet extended alphabet (escaped structural characters, margin-box at-keywords, ...); colour functions x short argument lists; 35 at-keywords x 14 '
+              'continuations x 19 block positions; @charset naming every codec of the running Python. '
               'Failures are identified by crash site (exception type + innermost frame of the checked tree), recorded findings are matched by site only')
 TECHNIQUE = ('bounded run-time contracts over exhaustively enumerated small domains on the real code (multiprocessing pool, per-input alarm); oracle = the property statement; '
              'not a proof: the tokenizer/_tokensupto2/_parse/log kernels named in DESIGN section 3 are not discharged here')
